@@ -66,13 +66,44 @@ def _pool():
             ps.append(p)
         paths.append(ps)
     _POOL["paths"] = paths
+    # the same two videos embedded in ONE .pkg.slp: both sio.Video objects then share their filename
+    # (they differ only by HDF5 dataset), as every multi-video package file does
+    import sleap_io as sio
+
+    try:
+        sio.set_default_image_plugin("imageio")
+    except Exception:  # noqa: BLE001
+        pass
+    vids = [sio.Video.from_filename(ps) for ps in paths]
+    skel = sio.Skeleton(["a"])
+    lfs = [
+        sio.LabeledFrame(video=vids[v], frame_idx=i, instances=[sio.Instance.from_numpy(np.array([[1.0, 2.0]]), skeleton=skel)])
+        for v in range(len(vids)) for i in range(N_SRC)
+    ]
+    pkg = os.path.join(d, "two_videos.pkg.slp")
+    sio.Labels(labeled_frames=lfs, videos=vids, skeletons=[skel]).save(pkg, embed="all")
+    _POOL["pkg"] = pkg
     return _POOL
 
 
 def _make_video(v, hook):
     import sleap_io as sio
 
-    vid = sio.Video.from_filename(_pool()["paths"][v])
+    return _hook_video(sio.Video.from_filename(_pool()["paths"][v]), v, hook)
+
+
+def _embedded_videos(hook):
+    """Fresh Video objects of the two-video package file (same filename, different datasets), hooked."""
+    import sleap_io as sio
+
+    vids = sio.load_slp(_pool()["pkg"]).videos
+    for vid in vids:
+        if vid.backend is None:
+            vid.open()
+    return [_hook_video(vid, v, hook) for v, vid in enumerate(vids)]
+
+
+def _hook_video(vid, v, hook):
     base_cls = type(vid.backend)
 
     class Hooked(base_cls):  # harness-side subclass: yield point + fault injection
@@ -131,7 +162,7 @@ def run_schedule(cfg, choices):
             exp_items = exp_items[: expected.index(fault["at"])]
         max_hw = SIZES[0]
     else:
-        vids = [_make_video(0, hook), _make_video(1, hook)]
+        vids = _embedded_videos(hook) if cfg.get("embedded") else [_make_video(0, hook), _make_video(1, hook)]
         used = sorted({v for v, _ in cfg["frames"]})
         videos = [vids[v] for v in used]
         skel = sio.Skeleton(["a"])
@@ -274,6 +305,8 @@ def evaluate(case):
     cfg = case["cfg"]
     if cfg["reader"] == "video" and cfg.get("end") is not None and cfg["end"] > N_SRC:
         res.cls("range-beyond-video")
+    if cfg.get("embedded"):
+        res.cls("labels:embedded-package(shared filename)")
     res.cls(
         f"reader={cfg['reader']}", f"cap={cfg['cap']}", f"batch={cfg['batch']}",
         "fault=" + (cfg["fault"]["kind"] if cfg.get("fault") else "none"),
@@ -336,6 +369,8 @@ def config_space(max_frames, caps, batches):
                     faults = [None] + [{"at": k, "kind": kind} for k in range(n) for kind in ("exception", "base")]
                     for f in faults:
                         out.append({"reader": "labels", "frames": frames, "cap": cap, "batch": batch, "fault": f})
+                    if layout == "two" and cap in (1, 2) and batch in (1, 2):
+                        out.append({"reader": "labels", "frames": frames, "cap": cap, "batch": batch, "fault": None, "embedded": True})
     return out
 
 
@@ -375,6 +410,8 @@ def strategy():
             if draw(st.booleans()):
                 frames = list(draw(st.permutations(frames)))
             cfg = {"reader": "labels", "frames": [list(f) for f in frames], "cap": cap, "batch": batch}
+            if draw(st.integers(0, 2)) == 0:
+                cfg["embedded"] = True  # videos of one package file share their filename
             idxs = list(range(len(frames)))
         fault = None
         if idxs and draw(st.integers(0, 2)) == 0:
